@@ -230,6 +230,8 @@ class DRun(Run):
                 if last is None:
                     last = inputs.get(name)
                 if last is None:
+                    last = self.declared_default(scope, name)
+                if last is None:
                     continue
                 got = snap[name]
                 if is_sym(got) or is_sym(last) or isinstance(got, int):
@@ -249,6 +251,8 @@ class DRun(Run):
                         last = val
                 if last is None:
                     last = inputs.get(name)
+                if last is None:
+                    last = self.declared_default(spec["declares"].get(name), name)
                 if last is not None and name in outs:
                     got = outs[name]
                     self.oblig((got == last) if (is_sym(got) or is_sym(last)) else (got == last), "outputs:last-writer:%s" % name,
@@ -281,6 +285,13 @@ class DRun(Run):
                     for k in opts:
                         if stays_local(k) and k in (m.get(part) or {}) and m["nid"] != nid:
                             self.viol("options:key-in-message:%s" % ("private" if k.startswith("__") else "undeclared"), "option %s of act %s shows in the %s of a message of %s" % (k, nid, part, m["nid"]))
+
+    def declared_default(self, scope, name):
+        """The value the declaring scope gives the name in the model (its `inputs` entry), if it is a plain value."""
+        r = self.node_attr(scope) if scope else None
+        node = r[1] if r else (self.plain_model if scope == self.plain_model.get("id") else {})
+        v = (node.get("inputs") or {}).get(name)
+        return v if isinstance(v, (int, str, bool)) and not (isinstance(v, str) and v.startswith("$")) else None
 
     def kind_of_reader(self, reader, expr):
         r = self.node_attr(reader)
